@@ -830,8 +830,8 @@ func gamma_p_derivative_imp(a, x float64) float64 {
     // overflow:
     return math.Inf(1)
    }
-   if f1 == 0.0 {
-     // Underflow in calculation, use logs instead:
+   if f1 < 0x1p-970 {
+     // Underflow (or gradual underflow) in calculation, use logs instead:
      v, _ := math.Lgamma(a)
      f1 = a*math.Log(x) - x - v - math.Log(x)
      f1 = math.Exp(f1)
